@@ -148,6 +148,8 @@ used already and asked for triggers that random testing is unlikely to hit):
   rejection re-admitted): see DESIGN section 13 "Round 11".
 * round 12 (34 admitted changes for 12 properties, 11 missed at first; two more rejected, one re-filed; defect F18 found
   and repaired): see DESIGN section 13 "Round 12".
+* round 13 (25 admitted changes for 12 properties, 14 missed at first; eleven rejected - repeats and out-of-domain
+  situations -, one re-filed): see DESIGN section 13 "Round 13".
 
 | id | change | needs to manifest | detected by its property's check | also caught by |
 |----|--------|-------------------|----------------------------------|----------------|
